@@ -24,32 +24,60 @@ use std::collections::{BTreeMap, BTreeSet, HashMap, HashSet};
 
 pub const NAMES: [&str; 9] = ["A1", "A2", "A3", "A4", "J", "R", "Rlow", "Cdep", "Dsp"];
 
+pub const DIAMOND: [&str; 8] = ["A1", "B", "C", "D", "E", "F", "R", "Rc"];
+
 pub struct PoolUniverse {
+    pub variant: u8,
+    pub names: Vec<&'static str>,
     pub txs: BTreeMap<&'static str, TransactionView>,
 }
 
 impl PoolUniverse {
-    pub fn new(cons: &Consensus) -> Self {
+    /// variant 0: chain of four against an ancestor limit of three, a join of two otherwise
+    /// unrelated parents, two replacements, a dep user and the dep cell's spender.
+    /// variant 1 (ancestor limit four): a diamond A1 -> {B, C} -> D with a tail F (one over the
+    /// limit), a sibling E, a replacement of the root and a replacement of one diamond arm.
+    pub fn new(cons: &Consensus, variant: u8) -> Self {
         let g = genesis_cells(cons);
-        let a1 = simple_tx(cons, &g[0..1], 2, 1_000_000, 1);
-        let a2 = simple_tx(cons, &[out(&a1, 0)], 1, 1_100_000, 2);
-        let a3 = simple_tx(cons, &[out(&a2, 0)], 1, 1_200_000, 3);
-        let a4 = simple_tx(cons, &[out(&a3, 0)], 1, 1_300_000, 4);
-        let j = simple_tx(cons, &[out(&a1, 1), g[1].clone()], 1, 900_000, 5);
-        // replacements of A1 (same input G0): one pays more than A1 and all its descendants, one does not
-        let r = simple_tx(cons, &g[0..1], 1, 9_000_000, 6);
-        let rlow = simple_tx(cons, &g[0..1], 1, 1_000_100, 7);
-        // a user of genesis cell G3 as a cell dep, and the consumer of G3
-        let cdep = simple_tx(cons, &g[2..3], 1, 800_000, 8).as_advanced_builder().cell_dep(CellDep::new_builder().out_point(g[3].0.clone()).build()).build();
-        let dsp = simple_tx(cons, &g[3..4], 1, 700_000, 9);
         let mut txs = BTreeMap::new();
-        for (n, t) in NAMES.iter().zip([a1, a2, a3, a4, j, r, rlow, cdep, dsp]) {
-            txs.insert(*n, t);
+        if variant == 0 {
+            let a1 = simple_tx(cons, &g[0..1], 2, 1_000_000, 1);
+            let a2 = simple_tx(cons, &[out(&a1, 0)], 1, 1_100_000, 2);
+            let a3 = simple_tx(cons, &[out(&a2, 0)], 1, 1_200_000, 3);
+            let a4 = simple_tx(cons, &[out(&a3, 0)], 1, 1_300_000, 4);
+            // replacements of A1 (same input G0): one pays more than A1 and all its descendants, one does not
+            let r = simple_tx(cons, &g[0..1], 1, 9_000_000, 6);
+            let rlow = simple_tx(cons, &g[0..1], 1, 1_000_100, 7);
+            // a user of genesis cell G3 as a cell dep, and the consumer of G3
+            let cdep = simple_tx(cons, &g[2..3], 1, 800_000, 8).as_advanced_builder().cell_dep(CellDep::new_builder().out_point(g[3].0.clone()).build()).build();
+            let dsp = simple_tx(cons, &g[3..4], 1, 700_000, 9);
+            // the join: one parent inside the A family, one outside it
+            let j = simple_tx(cons, &[out(&a1, 1), out(&cdep, 0)], 1, 900_000, 5);
+            for (n, t) in NAMES.iter().zip([a1, a2, a3, a4, j, r, rlow, cdep, dsp]) {
+                txs.insert(*n, t);
+            }
+            PoolUniverse { variant, names: NAMES.to_vec(), txs }
+        } else {
+            let a1 = simple_tx(cons, &g[0..1], 2, 1_000_000, 1);
+            let b = simple_tx(cons, &[out(&a1, 0)], 2, 1_100_000, 2);
+            let c = simple_tx(cons, &[out(&a1, 1)], 1, 1_200_000, 3);
+            let d = simple_tx(cons, &[out(&b, 0), out(&c, 0)], 1, 1_300_000, 4);
+            let e = simple_tx(cons, &[out(&b, 1)], 1, 900_000, 5);
+            let f = simple_tx(cons, &[out(&d, 0)], 1, 950_000, 6);
+            let r = simple_tx(cons, &g[0..1], 1, 9_000_000, 7);
+            // replaces C only (same input A1#1): its parent A1 stays, D and F go with C
+            let rc = simple_tx(cons, &[out(&a1, 1)], 1, 5_000_000, 8);
+            for (n, t) in DIAMOND.iter().zip([a1, b, c, d, e, f, r, rc]) {
+                txs.insert(*n, t);
+            }
+            PoolUniverse { variant, names: DIAMOND.to_vec(), txs }
         }
-        PoolUniverse { txs }
     }
     pub fn name_of(&self, id: &ProposalShortId) -> String {
         self.txs.iter().find(|(_, t)| &t.proposal_short_id() == id).map(|(n, _)| n.to_string()).unwrap_or_else(|| format!("{id:?}"))
+    }
+    pub fn max_ancestors(&self) -> usize {
+        if self.variant == 0 { 3 } else { 4 }
     }
 }
 
@@ -61,9 +89,9 @@ pub enum Op {
     Expire,
 }
 
-pub fn pool_config(rbf: bool) -> TxPoolConfig {
+pub fn pool_config(rbf: bool, variant: u8) -> TxPoolConfig {
     let mut c = TxPoolConfig::default();
-    c.max_ancestors_count = 3;
+    c.max_ancestors_count = if variant == 0 { 3 } else { 4 };
     c.min_fee_rate = FeeRate::from_u64(1_000);
     c.min_rbf_rate = FeeRate::from_u64(if rbf { 1_500 } else { 1_000 });
     c.expiry_hours = 1;
@@ -238,14 +266,21 @@ impl Driver {
         Ok(())
     }
 
-    pub fn boot(dir: &std::path::Path, cons: &Consensus, rbf: bool) -> Result<Driver, String> {
+    pub fn boot(dir: &std::path::Path, cons: &Consensus, rbf: bool, variant: u8) -> Result<Driver, String> {
+        let mut d = Self::boot_with(dir, cons, pool_config(rbf, variant), true)?;
+        d.u = PoolUniverse::new(cons, variant);
+        Ok(d)
+    }
+
+    pub fn boot_with(dir: &std::path::Path, cons: &Consensus, cfg: TxPoolConfig, assembler: bool) -> Result<Driver, String> {
         let _ = std::fs::remove_dir_all(dir);
         set_time(time_for_height(0));
         let mut opts = NodeOpts::new(cons.clone()).with_pool();
-        opts.tx_pool_config = Some(pool_config(rbf));
+        opts.assembler = assembler;
+        opts.tx_pool_config = Some(cfg);
         let node = Node::boot(dir, &opts)?;
         node.wait_startup()?;
-        Ok(Driver { node, cons: cons.clone(), u: PoolUniverse::new(cons), clock: time_for_height(0), mined: 0, resets: 0 })
+        Ok(Driver { node, cons: cons.clone(), u: PoolUniverse::new(cons, 0), clock: time_for_height(0), mined: 0, resets: 0 })
     }
 
     /// applies one op; returns a short observation (accepted / rejected ...)
@@ -253,14 +288,14 @@ impl Driver {
         let pool = self.node.shared.tx_pool_controller().clone();
         match op {
             Op::Submit(i) => {
-                let tx = self.u.txs[NAMES[i]].clone();
+                let tx = self.u.txs[self.u.names[i]].clone();
                 match pool.submit_local_tx(tx).map_err(|e| e.to_string())? {
                     Ok(_) => Ok("accepted".into()),
                     Err(e) => Ok(format!("rejected: {}", e.to_string().split('(').next().unwrap_or("").trim())),
                 }
             }
             Op::Remove(i) => {
-                let h = self.u.txs[NAMES[i]].hash();
+                let h = self.u.txs[self.u.names[i]].hash();
                 Ok(format!("removed={}", pool.remove_local_tx(h).map_err(|e| e.to_string())?))
             }
             Op::Mine => {
@@ -293,13 +328,13 @@ pub fn meta(tier: Tier) -> Meta {
     Meta {
         id: "C11",
         level: "model_checking",
-        rule: "state = operation history (replayed on a real node that is reset to genesis tip + empty pool by truncate + clear_pool between histories, rebooted every 400 histories) over {Submit(t), Remove(t) for the 9 designed transactions, Mine, Expire(+2h)} replayed on a fresh real node + tx-pool service (ancestor limit 3, pool size limit ~5 txs, expiry 1h; RBF on and off); BFS by depth, states merged only when (tip, sorted entries with status and recorded parents, conflict-cache ids) agree; after EVERY operation the hook dump is judged: no double spend, input/dep edge maps = inputs/deps of the pooled txs, link key set = entries, parents justified by a spend/dep relation and containing every spend/dep of a pooled output, children = transpose, ancestor/descendant (count,size,cycles,fee) = recomputation over the link closure, per-status counts and totals, ancestor limit, and the RBF rule on every successful replacement (replaced + descendants gone, fee >= their fees + min_rbf_rate*size; a rejected one leaves the pool unchanged). non-trivial = state with >= 2 linked entries or reached through Mine/Expire/replacement.",
+        rule: "state = operation history (replayed on a real node that is reset to genesis tip + empty pool by truncate + clear_pool between histories, rebooted every 400 histories) over {Submit(t), Remove(t) for the designed transactions of the universe (0: chain of four against ancestor limit 3, a join of two unrelated parents, a sufficient and an insufficient replacement, a dep user and the dep cell spender; 1: diamond A1->{B,C}->D with tail F against ancestor limit 4, sibling E, replacement of the root, replacement of one arm), Mine, Expire(+2h)} replayed on a fresh real node + tx-pool service (ancestor limit 3, pool size limit ~5 txs, expiry 1h; RBF on and off); BFS by depth, states merged only when (tip, sorted entries with status and recorded parents, conflict-cache ids) agree; after EVERY operation the hook dump is judged: no double spend, input/dep edge maps = inputs/deps of the pooled txs, link key set = entries, parents justified by a spend/dep relation and containing every spend/dep of a pooled output, children = transpose, ancestor/descendant (count,size,cycles,fee) = recomputation over the link closure, per-status counts and totals, ancestor limit, and the RBF rule on every successful replacement (replaced + descendants gone, fee >= their fees + min_rbf_rate*size; a rejected one leaves the pool unchanged). non-trivial = state with >= 2 linked entries or reached through Mine/Expire/replacement.",
         assumptions: &["reorganisations onto a competing branch are C12's subject and not in this alphabet", "the pool's public RPC views are not compared here (the hook dump is the observed state)"],
-        bounds: json!({"depth": if tier.is_thorough() { 7 } else { 5 }, "depth_rbf_off": if tier.is_thorough() { 7 } else { 4 }, "split": "(rbf, op1, op2) round-robin over 16 workers, level-synchronous BFS with a per-worker seen set", "universe": NAMES, "rbf": [true, false]}),
+        bounds: json!({"configs_universe_rbf_depth": if tier.is_thorough() { json!([[0, true, 6], [1, true, 6], [0, false, 6], [1, false, 5]]) } else { json!([[0, true, 5], [1, true, 4], [0, false, 4]]) }, "split": "(config, op1, op2) round-robin over 16 workers, level-synchronous BFS with a per-worker seen set", "universe_0": NAMES, "universe_1_diamond": DIAMOND}),
     }
 }
 
-fn replay_history(ctx: &Ctx, cons: &Consensus, rbf: bool, hist: &[Op], report: &mut Report, slot: &mut Option<Driver>) -> Result<Option<u64>, String> {
+fn replay_history(ctx: &Ctx, cons: &Consensus, rbf: bool, variant: u8, hist: &[Op], report: &mut Report, slot: &mut Option<Driver>) -> Result<Option<u64>, String> {
     // one node per worker, reset between histories; a fresh node every 400 histories
     if slot.as_ref().map(|d| d.resets >= 400).unwrap_or(false) {
         if let Some(d) = slot.take() {
@@ -308,7 +343,7 @@ fn replay_history(ctx: &Ctx, cons: &Consensus, rbf: bool, hist: &[Op], report: &
     }
     if slot.is_none() {
         let n = BOOTS.fetch_add(1, std::sync::atomic::Ordering::SeqCst);
-        *slot = Some(Driver::boot(&ctx.scratch.join(format!("pool-node-{n}")), cons, rbf)?);
+        *slot = Some(Driver::boot(&ctx.scratch.join(format!("pool-node-{n}")), cons, rbf, variant)?);
     }
     let drv = slot.as_mut().unwrap();
     drv.reset()?;
@@ -319,8 +354,8 @@ fn replay_history(ctx: &Ctx, cons: &Consensus, rbf: bool, hist: &[Op], report: &
         let obs = drv.apply(*op)?;
         let post = drv.dump()?;
         report.transitions += 1;
-        let label = json!({"rbf": rbf, "history": hist, "step": step});
-        for (kind, msg) in judge(&post, &drv.u, 3) {
+        let label = json!({"rbf": rbf, "universe": variant, "history": hist, "step": step});
+        for (kind, msg) in judge(&post, &drv.u, drv.u.max_ancestors()) {
             report.violation(format!("bookkeeping/{kind}"), format!("after {:?} ({obs}): {msg}", op), label.clone());
             ok = false;
         }
@@ -329,7 +364,7 @@ fn replay_history(ctx: &Ctx, cons: &Consensus, rbf: bool, hist: &[Op], report: &
         }
         // RBF rule
         if let Op::Submit(i) = op {
-            let tx = &drv.u.txs[NAMES[*i]];
+            let tx = &drv.u.txs[drv.u.names[*i]];
             let conflicts: Vec<_> = pre.entries.iter().filter(|e| e.id != tx.proposal_short_id() && e.tx.input_pts_iter().any(|x| tx.input_pts_iter().any(|y| x == y))).collect();
             if !conflicts.is_empty() {
                 if obs == "accepted" {
@@ -346,18 +381,18 @@ fn replay_history(ctx: &Ctx, cons: &Consensus, rbf: bool, hist: &[Op], report: &
                     }
                     let still: Vec<String> = post.entries.iter().filter(|e| replaced.contains(&e.id)).map(|e| drv.u.name_of(&e.id)).collect();
                     if !still.is_empty() || !post.entries.iter().any(|e| e.id == tx.proposal_short_id()) {
-                        report.violation("rbf/replaced-and-replacing", format!("replacement {} accepted but {:?} are still pooled (or the replacement is not)", NAMES[*i], still), label.clone());
+                        report.violation("rbf/replaced-and-replacing", format!("replacement {} accepted but {:?} are still pooled (or the replacement is not)", drv.u.names[*i], still), label.clone());
                     }
                     let replaced_fee: u64 = pre.entries.iter().filter(|e| replaced.contains(&e.id)).map(|e| e.own.2).sum();
                     let new = post.entries.iter().find(|e| e.id == tx.proposal_short_id());
                     if let Some(new) = new {
-                        let increment = pool_config(rbf).min_rbf_rate.fee(new.own.1 as u64).as_u64();
+                        let increment = pool_config(rbf, drv.u.variant).min_rbf_rate.fee(new.own.1 as u64).as_u64();
                         if !rbf || new.own.2 < replaced_fee + increment {
-                            report.violation("rbf/underpaid-replacement", format!("replacement {} with fee {} admitted; replaced fees {} + increment {} (rbf enabled: {rbf})", NAMES[*i], new.own.2, replaced_fee, increment), label.clone());
+                            report.violation("rbf/underpaid-replacement", format!("replacement {} with fee {} admitted; replaced fees {} + increment {} (rbf enabled: {rbf})", drv.u.names[*i], new.own.2, replaced_fee, increment), label.clone());
                         }
                     }
                 } else if canon(&pre, &drv.u, 0).1 != canon(&post, &drv.u, 0).1 {
-                    report.violation("rbf/rejected-replacement-changed-pool", format!("replacement {} was {obs} but the pool changed", NAMES[*i]), label.clone());
+                    report.violation("rbf/rejected-replacement-changed-pool", format!("replacement {} was {obs} but the pool changed", drv.u.names[*i]), label.clone());
                 }
             }
         }
@@ -371,7 +406,7 @@ fn replay_history(ctx: &Ctx, cons: &Consensus, rbf: bool, hist: &[Op], report: &
     let mut ages: Vec<(u64, String, bool)> = d.entries.iter().map(|e| (e.timestamp, drv.u.name_of(&e.id), drv.clock.saturating_sub(e.timestamp) > 3600 * 1000)).collect();
     ages.sort();
     let age_order: Vec<(String, bool)> = ages.into_iter().map(|(_, n, x)| (n, x)).collect();
-    let f = fp(&(rbf, &c, &chain_digest, &age_order));
+    let f = fp(&(rbf, variant, &c, &chain_digest, &age_order));
     if d.entries.iter().any(|e| !e.parents.is_empty()) || special {
         report.nontrivial.insert(f);
     }
@@ -391,25 +426,28 @@ pub fn run(ctx: &Ctx) -> Report {
         let v: Value = load_replay_case(path);
         let hist: Vec<Op> = serde_json::from_value(v["history"].clone()).expect("history");
         let rbf = v["rbf"].as_bool().unwrap_or(true);
+        let variant = v["universe"].as_u64().unwrap_or(0) as u8;
         let mut slot = None;
-        if let Err(e) = replay_history(ctx, &cons, rbf, &hist, &mut report, &mut slot) {
+        if let Err(e) = replay_history(ctx, &cons, rbf, variant, &hist, &mut report, &mut slot) {
             report.machinery_errors.push(e);
         }
         report.outcomes.insert(0);
         report.outcomes.insert(1);
         return report;
     }
-    let mut ops: Vec<Op> = (0..NAMES.len()).map(Op::Submit).collect();
-    ops.extend((0..NAMES.len()).map(Op::Remove));
-    ops.push(Op::Mine);
-    ops.push(Op::Expire);
-    let depth = if ctx.tier.is_thorough() { 7 } else { 5 };
-    // the search is split by (rbf, first op, second op) over the worker processes; each worker runs
-    // one level-synchronous BFS over all its roots per rbf setting, with a shared seen-set (so a
+    // (universe, rbf, depth)
+    let configs: Vec<(u8, bool, usize)> = if ctx.tier.is_thorough() { vec![(0, true, 6), (1, true, 6), (0, false, 6), (1, false, 5)] } else { vec![(0, true, 5), (1, true, 4), (0, false, 4)] };
+    // the search is split by (config, first op, second op) over the worker processes; each worker
+    // runs one level-synchronous BFS over all its roots per config, with a shared seen-set (so a
     // state is expanded at the smallest depth this worker reaches it)
-    let firsts: Vec<Op> = ops.iter().cloned().filter(|op| matches!(op, Op::Submit(_) | Op::Mine)).collect();
     let mut ri = 0u64;
-    for rbf in [true, false] {
+    for (variant, rbf, depth) in configs {
+        let n_txs = if variant == 0 { NAMES.len() } else { DIAMOND.len() };
+        let mut ops: Vec<Op> = (0..n_txs).map(Op::Submit).collect();
+        ops.extend((0..n_txs).map(Op::Remove));
+        ops.push(Op::Mine);
+        ops.push(Op::Expire);
+        let firsts: Vec<Op> = ops.iter().cloned().filter(|op| matches!(op, Op::Submit(_) | Op::Mine)).collect();
         let mut seen: HashSet<u64> = HashSet::new();
         let mut frontier: Vec<Vec<Op>> = vec![];
         let mut slot: Option<Driver> = None;
@@ -425,7 +463,7 @@ pub fn run(ctx: &Ctx) -> Report {
                     continue;
                 }
                 let h = vec![*first, *second];
-                match replay_history(ctx, &cons, rbf, &h, &mut report, &mut slot) {
+                match replay_history(ctx, &cons, rbf, variant, &h, &mut report, &mut slot) {
                     Ok(Some(f)) => {
                         if seen.insert(f) {
                             report.states.insert(f);
@@ -440,14 +478,12 @@ pub fn run(ctx: &Ctx) -> Report {
                 }
             }
         }
-        // quick tier: the RBF-off configuration differs only in how R / Rlow are treated; one level less
-        let depth = if !rbf && !ctx.tier.is_thorough() { depth - 1 } else { depth };
         for d in 3..=depth {
             let mut next = vec![];
             for h in &frontier {
                 for op in &ops {
                     if ctx.out_of_time() {
-                        report.cap_hit = Some(format!("wall budget reached at depth {d} (rbf={rbf})"));
+                        report.cap_hit = Some(format!("wall budget reached at depth {d} (universe {variant}, rbf={rbf})"));
                         return report;
                     }
                     // pruning that cannot hide behaviour: removing a tx that never was submitted in
@@ -459,7 +495,7 @@ pub fn run(ctx: &Ctx) -> Report {
                     }
                     let mut nh = h.clone();
                     nh.push(*op);
-                    match replay_history(ctx, &cons, rbf, &nh, &mut report, &mut slot) {
+                    match replay_history(ctx, &cons, rbf, variant, &nh, &mut report, &mut slot) {
                         Ok(Some(f)) => {
                             if seen.insert(f) {
                                 report.states.insert(f);
@@ -474,7 +510,7 @@ pub fn run(ctx: &Ctx) -> Report {
                     }
                 }
             }
-            report.max_counter("max_depth_completed", d as u64);
+            report.max_counter(&format!("max_depth_completed_u{variant}_rbf{}", rbf as u8), d as u64);
             frontier = next;
             if frontier.is_empty() {
                 break;
